@@ -4,11 +4,15 @@
    order in the source makes this file (or coq/gen/oem.v itself) fail to compile.
    F is any ordered field (realFieldType), K is (m+1) x (n+1) for arbitrary m, n (under- and over-determined),
    "SPD" is `spd`: M^T = M and x^T M x > 0 for all x <> 0 (Model/C17_oem.v).  No invertibility hypotheses:
-   they are consequences of SPD (Proofs: posdef_unit). *)
+   they are consequences of SPD (Proofs: posdef_unit).
+   Spectral clause: Proofs/C17_selfadjoint.v (every ordered field) and Proofs/C17_complex.v (real closed fields, whole
+   complex spectrum); the two limits as epsilon-delta statements: Proofs/C17_limits.v.  Nothing here is `_partial` any
+   more; what is not constructed is an eigenbasis of A (see the comment at A_complex_spectrum_in_unit_interval). *)
 Set Warnings "-notation-overridden,-ambiguous-paths".
 From mathcomp Require Import all_ssreflect all_algebra.
+From mathcomp Require Import complex realalg.
 From TyphonGen Require Import oem.
-From Typhon Require Import Model.C17_oem Proofs.C17_oem.
+From Typhon Require Import Model.C17_oem Proofs.C17_oem Proofs.C17_limits Proofs.C17_selfadjoint Proofs.C17_complex.
 Import GRing.Theory Num.Theory.
 Local Open Scope ring_scope.
 
@@ -64,25 +68,71 @@ Theorem A_eq_I_minus_S_Sainv : forall (F : realFieldType) (m n : nat)
   averaging_kernel_matrix K Sa Sy = 1%:M - error_covariance_matrix K Sa Sy *m invmx Sa.
 Proof. exact: spd_A_eq_I_minus. Qed.
 
-(* eigenvalues of A in [0,1): proved for every eigenvalue that lies in F (mathcomp's `eigenvalue A a`:
-   v A = a v for some row vector v <> 0; A and A^T have the same eigenvalues).
-   _partial: NOT proved is that A has a full set of eigenvalues in F = R (A is similar to the symmetric matrix
-   S^(1/2) K^T Sy^-1 K S^(1/2); this needs the spectral theorem, which the installed libraries lack), i.e.
-   complex eigenvalues are not excluded by this theorem.  The numeric sweep checks the whole spectrum. *)
-Theorem A_eigenvalues_in_unit_interval_partial : forall (F : realFieldType) (m n : nat)
+(* ---- the spectral clause "eigenvalues in [0, 1)" ------------------------------------------------------------
+   A = G K is not symmetric, but it is SELF-ADJOINT for the inner product <x, y> = x^T Sa^-1 y (Sa^-1 A is
+   symmetric) and its Rayleigh quotient x^T Sa^-1 A x / x^T Sa^-1 x lies in [0, 1): the coordinate-free form of
+   "all eigenvalues real and in [0, 1)".  Over every ordered field F (no square roots, no spectral theorem): *)
+Theorem A_symmetrised : forall (F : realFieldType) (m n : nat)
+    (K : 'M[F]_(m.+1, n.+1)) (Sa : 'M[F]_(n.+1)) (Sy : 'M[F]_(m.+1)), spd Sa -> spd Sy ->
+  let A := averaging_kernel_matrix K Sa Sy in
+  (invmx Sa *m A)^T = invmx Sa *m A /\
+  forall x : 'cV[F]_(n.+1), x != 0 ->
+    0 <= (x^T *m (invmx Sa *m A) *m x) 0 0 < (x^T *m invmx Sa *m x) 0 0.
+Proof. exact: spd_A_symmetrised. Qed.
+
+(* every eigenvalue of A that lies in F (mathcomp's `eigenvalue A a`: v A = a v for some row vector v <> 0) is in [0,1) *)
+Theorem A_eigenvalues_in_unit_interval : forall (F : realFieldType) (m n : nat)
     (K : 'M[F]_(m.+1, n.+1)) (Sa : 'M[F]_(n.+1)) (Sy : 'M[F]_(m.+1)), spd Sa -> spd Sy ->
   forall a : F, eigenvalue (averaging_kernel_matrix K Sa Sy) a -> 0 <= a < 1.
 Proof. exact: spd_A_eigenvalue_bounds. Qed.
 
-(* The two limits.  Proved: explicit bounds that are LINEAR in the scaling factor, for every x --
+(* A has no eigenvalue with a non-zero imaginary part in F[i], written out in real and imaginary parts:
+   A (u + i v) = (a + i b) (u + i v) with u + i v <> 0 forces b = 0, and then 0 <= a < 1 *)
+Theorem A_complex_eigenpairs_real : forall (F : realFieldType) (m n : nat)
+    (K : 'M[F]_(m.+1, n.+1)) (Sa : 'M[F]_(n.+1)) (Sy : 'M[F]_(m.+1)), spd Sa -> spd Sy ->
+  let A := averaging_kernel_matrix K Sa Sy in
+  forall (a b : F) (u v : 'cV[F]_(n.+1)), (u != 0) || (v != 0) ->
+  A *m u = a *: u - b *: v -> A *m v = b *: u + a *: v -> b = 0 /\ 0 <= a < 1.
+Proof. exact: spd_A_complex_eigenpair. Qed.
+
+(* no Jordan blocks: a generalised eigenvector of rank 2 is an eigenvector (for every a in F) *)
+Theorem A_semisimple : forall (F : realFieldType) (m n : nat)
+    (K : 'M[F]_(m.+1, n.+1)) (Sa : 'M[F]_(n.+1)) (Sy : 'M[F]_(m.+1)), spd Sa -> spd Sy ->
+  let A := averaging_kernel_matrix K Sa Sy in
+  forall (a : F) (x : 'cV[F]_(n.+1)), (A - a%:M) *m ((A - a%:M) *m x) = 0 -> (A - a%:M) *m x = 0.
+Proof. exact: spd_A_semisimple. Qed.
+
+(* eigenvectors for different eigenvalues are orthogonal for x^T Sa^-1 y *)
+Theorem A_eigenvectors_orthogonal : forall (F : realFieldType) (m n : nat)
+    (K : 'M[F]_(m.+1, n.+1)) (Sa : 'M[F]_(n.+1)) (Sy : 'M[F]_(m.+1)), spd Sa -> spd Sy ->
+  let A := averaging_kernel_matrix K Sa Sy in
+  forall (a1 a2 : F) (x y : 'cV[F]_(n.+1)),
+  A *m x = a1 *: x -> A *m y = a2 *: y -> a1 != a2 -> (x^T *m invmx Sa *m y) 0 0 = 0.
+Proof. exact: spd_A_eigenvectors_orthogonal. Qed.
+
+(* Over a REAL CLOSED field R (the reals, the real algebraic numbers) R[i] is algebraically closed (mathcomp
+   real_closed), so the following two are about the WHOLE spectrum: every eigenvalue of A in R[i] is real and lies in
+   [0, 1), and the characteristic polynomial of A splits over R into n+1 linear factors with roots in [0, 1).
+   Remaining gap of the spectral theorem: an explicit eigenbasis (diagonalisability) is not constructed; it follows
+   on paper from A_char_poly_splits_in_unit_interval + A_semisimple. *)
+Theorem A_complex_spectrum_in_unit_interval : forall (R : rcfType) (m n : nat)
+    (K : 'M[R]_(m.+1, n.+1)) (Sa : 'M[R]_(n.+1)) (Sy : 'M[R]_(m.+1)), spd Sa -> spd Sy ->
+  forall l : R[i], eigenvalue (map_mx (real_complex R) (averaging_kernel_matrix K Sa Sy)) l ->
+  complex.Im l = 0 /\ 0 <= complex.Re l < 1.
+Proof. exact: spd_A_complex_spectrum. Qed.
+
+Theorem A_char_poly_splits_in_unit_interval : forall (R : rcfType) (m n : nat)
+    (K : 'M[R]_(m.+1, n.+1)) (Sa : 'M[R]_(n.+1)) (Sy : 'M[R]_(m.+1)), spd Sa -> spd Sy ->
+  exists r : seq R, [/\ char_poly (averaging_kernel_matrix K Sa Sy) = \prod_(x <- r) ('X - x%:P),
+                        size r = n.+1 & all (fun x => 0 <= x < 1) r].
+Proof. exact: spd_A_char_poly_splits. Qed.
+
+(* ---- the two limits -----------------------------------------------------------------------------------------
+   Quadratic-form bounds that are LINEAR in the scaling factor, for every x --
      prior d*Sa:   A_d = S_d (K^T Sy^-1 K)  and  0 <= x^T S_d x <= d x^T Sa x;
      noise e*Sy (K of full column rank: K x <> 0 for x <> 0):
-                   A_e = I - S_e Sa^-1      and  0 <= x^T S_e x <= e x^T (K^T Sy^-1 K)^-1 x.
-   _partial: NOT formalised is the passage to the limit itself (no topology on matrices in the installed
-   libraries): S_d, S_e are symmetric, so each entry is a combination of three such quadratic forms and tends to
-   zero with d resp. e; hence A_d -> 0 and A_e -> I.  The numeric sweep checks ||A_d|| and ||I - A_e|| against the
-   corresponding norm bounds for factors down to 1e-8. *)
-Theorem A_vanishing_prior_bound_partial : forall (F : realFieldType) (m n : nat)
+                   A_e = I - S_e Sa^-1      and  0 <= x^T S_e x <= e x^T (K^T Sy^-1 K)^-1 x. *)
+Theorem A_vanishing_prior_bound : forall (F : realFieldType) (m n : nat)
     (K : 'M[F]_(m.+1, n.+1)) (Sa : 'M[F]_(n.+1)) (Sy : 'M[F]_(m.+1)), spd Sa -> spd Sy ->
   forall d : F, 0 < d ->
   let S_d := error_covariance_matrix K (d *: Sa) Sy in
@@ -90,7 +140,7 @@ Theorem A_vanishing_prior_bound_partial : forall (F : realFieldType) (m n : nat)
   forall x : 'cV[F]_(n.+1), 0 <= (x^T *m S_d *m x) 0 0 <= d * (x^T *m Sa *m x) 0 0.
 Proof. exact: prior_scaling_bound. Qed.
 
-Theorem A_vanishing_noise_bound_partial : forall (F : realFieldType) (m n : nat)
+Theorem A_vanishing_noise_bound : forall (F : realFieldType) (m n : nat)
     (K : 'M[F]_(m.+1, n.+1)) (Sa : 'M[F]_(n.+1)) (Sy : 'M[F]_(m.+1)), spd Sa -> spd Sy ->
   (forall x : 'cV[F]_(n.+1), x != 0 -> K *m x != 0) ->
   forall e : F, 0 < e ->
@@ -99,6 +149,44 @@ Theorem A_vanishing_noise_bound_partial : forall (F : realFieldType) (m n : nat)
   forall x : 'cV[F]_(n.+1),
     0 <= (x^T *m S_e *m x) 0 0 <= e * (x^T *m invmx (K^T *m invmx Sy *m K) *m x) 0 0.
 Proof. exact: noise_scaling_bound. Qed.
+
+(* entry by entry, with explicit constants (bilinear forms of a symmetric PSD matrix are bounded by its quadratic
+   forms: |x^T S y| <= (x^T S x + y^T S y) / 2): every entry of S_d and of A_d is O(d), every entry of S_e and of
+   I - A_e is O(e) *)
+Theorem A_vanishing_prior_rate : forall (F : realFieldType) (m n : nat)
+    (K : 'M[F]_(m.+1, n.+1)) (Sa : 'M[F]_(n.+1)) (Sy : 'M[F]_(m.+1)), spd Sa -> spd Sy ->
+  let B := K^T *m invmx Sy *m K in
+  forall d : F, 0 < d -> forall i j,
+  `|error_covariance_matrix K (d *: Sa) Sy i j| <= d * ((Sa i i + Sa j j) / 2%:R) /\
+  `|averaging_kernel_matrix K (d *: Sa) Sy i j| <= d * ((Sa i i + (B *m Sa *m B) j j) / 2%:R).
+Proof. move=> F m n K Sa Sy ha hy /= d; exact: prior_entry_rate. Qed.
+
+Theorem A_vanishing_noise_rate : forall (F : realFieldType) (m n : nat)
+    (K : 'M[F]_(m.+1, n.+1)) (Sa : 'M[F]_(n.+1)) (Sy : 'M[F]_(m.+1)), spd Sa -> spd Sy ->
+  (forall x : 'cV[F]_(n.+1), x != 0 -> K *m x != 0) ->
+  let Bi := invmx (K^T *m invmx Sy *m K) in
+  forall e : F, 0 < e -> forall i j,
+  `|error_covariance_matrix K Sa (e *: Sy) i j| <= e * ((Bi i i + Bi j j) / 2%:R) /\
+  `|(1%:M - averaging_kernel_matrix K Sa (e *: Sy)) i j| <= e * ((Bi i i + (invmx Sa *m Bi *m invmx Sa) j j) / 2%:R).
+Proof. move=> F m n K Sa Sy ha hy hK /= e; exact: noise_entry_rate. Qed.
+
+(* THE LIMITS, epsilon-delta over the ordered field, uniformly in the entries (= convergence in the max norm):
+     S_d -> 0 and A_d -> 0 for d -> 0+ (vanishing prior variance);
+     S_e -> 0 and A_e -> I for e -> 0+ (vanishing measurement noise, K of full column rank). *)
+Theorem A_vanishing_prior_limit : forall (F : realFieldType) (m n : nat)
+    (K : 'M[F]_(m.+1, n.+1)) (Sa : 'M[F]_(n.+1)) (Sy : 'M[F]_(m.+1)), spd Sa -> spd Sy ->
+  forall eps : F, 0 < eps -> exists d0 : F, 0 < d0 /\ forall d : F, 0 < d < d0 -> forall i j,
+  `|error_covariance_matrix K (d *: Sa) Sy i j| < eps /\
+  `|averaging_kernel_matrix K (d *: Sa) Sy i j| < eps.
+Proof. exact: prior_entry_limit. Qed.
+
+Theorem A_vanishing_noise_limit : forall (F : realFieldType) (m n : nat)
+    (K : 'M[F]_(m.+1, n.+1)) (Sa : 'M[F]_(n.+1)) (Sy : 'M[F]_(m.+1)), spd Sa -> spd Sy ->
+  (forall x : 'cV[F]_(n.+1), x != 0 -> K *m x != 0) ->
+  forall eps : F, 0 < eps -> exists e0 : F, 0 < e0 /\ forall e : F, 0 < e < e0 -> forall i j,
+  `|error_covariance_matrix K Sa (e *: Sy) i j| < eps /\
+  `|(averaging_kernel_matrix K Sa (e *: Sy) - 1%:M) i j| < eps.
+Proof. exact: noise_entry_limit. Qed.
 
 (* smoothing_error and retrieval_noise are the linear maps A (x - x_a) and G e_y *)
 Theorem smoothing_error_is_A_dx : forall (F : fieldType) (n : nat) (x xa : 'cV[F]_(n.+1)) (A : 'M[F]_(n.+1)),
@@ -126,6 +214,24 @@ Qed.
 Example nonvacuous_full_rank : forall x : 'cV[rat]_3, x != 0 -> (1%:M : 'M[rat]_3) *m x != 0.
 Proof. by move=> x xn0; rewrite mul1mx. Qed.
 
+(* non-vacuity of the eigenpair hypotheses: direct measurement of the state with unit covariances has A = I/2, so
+   every u (with v = 0, b = 0) is an eigenvector for a = 1/2 -- and indeed 0 <= 1/2 < 1 *)
+Example nonvacuous_eigenpair : forall u : 'cV[rat]_3,
+  spd (1%:M : 'M[rat]_3) /\
+  averaging_kernel_matrix (1%:M : 'M[rat]_3) 1%:M 1%:M *m u = 2%:R^-1 *: u - 0 *: (0 : 'cV[rat]_3) /\
+  averaging_kernel_matrix (1%:M : 'M[rat]_3) 1%:M 1%:M *m (0 : 'cV[rat]_3) = 0 *: u + 2%:R^-1 *: 0.
+Proof.
+move=> u; split; first exact: spd_1.
+by rewrite direct_measurement_kernel mul_scalar_mx !scale0r scaler0 subr0 mulmx0 addr0.
+Qed.
+
+(* non-vacuity of "real closed field": the real algebraic numbers, same family of covariances *)
+Example nonvacuous_rcf : forall (C : 'M[realalg]_3) (D : 'M[realalg]_2) (K : 'M[realalg]_(2, 3)),
+  exists r : seq realalg,
+    [/\ char_poly (averaging_kernel_matrix K (C^T *m C + 1%:M) (D^T *m D + 1%:M)) = \prod_(x <- r) ('X - x%:P),
+        size r = 3%N & all (fun x => 0 <= x < 1) r].
+Proof. move=> C D K; exact: (spd_A_char_poly_splits K (spd_gram C) (spd_gram D)). Qed.
+
 Print Assumptions S_defining.
 Print Assumptions S_symmetric_positive_definite.
 Print Assumptions S_le_Sa.
@@ -134,8 +240,18 @@ Print Assumptions gain_m_form.
 Print Assumptions gain_m_form_units.
 Print Assumptions A_eq_GK.
 Print Assumptions A_eq_I_minus_S_Sainv.
-Print Assumptions A_eigenvalues_in_unit_interval_partial.
-Print Assumptions A_vanishing_prior_bound_partial.
-Print Assumptions A_vanishing_noise_bound_partial.
+Print Assumptions A_symmetrised.
+Print Assumptions A_eigenvalues_in_unit_interval.
+Print Assumptions A_complex_eigenpairs_real.
+Print Assumptions A_semisimple.
+Print Assumptions A_eigenvectors_orthogonal.
+Print Assumptions A_complex_spectrum_in_unit_interval.
+Print Assumptions A_char_poly_splits_in_unit_interval.
+Print Assumptions A_vanishing_prior_bound.
+Print Assumptions A_vanishing_noise_bound.
+Print Assumptions A_vanishing_prior_rate.
+Print Assumptions A_vanishing_noise_rate.
+Print Assumptions A_vanishing_prior_limit.
+Print Assumptions A_vanishing_noise_limit.
 Print Assumptions smoothing_error_is_A_dx.
 Print Assumptions retrieval_noise_is_G_ey.
